@@ -3,11 +3,12 @@ import SleapVerif.Model.Arch
 import SleapVerif.Gen.TranslatedArch
 /-! Driver for C14.
 
-`model fam variant filters p q maxStride bos stem cpb middle upInterp inCh fixMid fixWrap stemKernel <nh> (head spec)* <nc> (h w)*`
-  → `construct-raise <err>` | `built L <labels> O <dec out> I <head in> | <last call>` with
+`model fam variant filters p q maxStride bos stem cpb middle upInterp inCh fixMid fixWrap stemKernel fixHead <nh> (head spec)* <nc> (h w)*`
+  → `construct-raise <err>` | `built L <labels> O <dec out> I <head in> E <enc conv in/out…> C <dec convIn tIn…> | <last call>` with
     `<last call>` = `fwd-raise <err>` | `ok G <n> (label ch h w)* H <n> (ch h w)*`
   (the calls are a history on one module: first call fresh pools, later calls stale pools).
 `sameconv n k`       → `sameConvOut n k` and `explicitHalfPadOut n k`
+`gfilt stem|down|dec f p q block stem down` → generated filter-count definitions
 `pad i k s d`        → generated `_calc_same_pad`
 `blocks none stem ms bos` → generated `UNet.from_config` block counts `down up stem`
 -/
@@ -44,37 +45,50 @@ def pHead : P Head := do
       pure ((HeadKind.pafs edges).toHead os)
   | _ => failure
 
-def pCfg : P (Cfg × List (Nat × Nat)) := do
+def pCfg : P (Cfg × List (Nat × Nat) × Bool) := do
   let fam ← tok
   let fam ← match fam with
     | "unet" => pure Family.unet | "convnext" => pure Family.convnext | "swint" => pure Family.swint
     | _ => failure
   let variant ← nat; let filters ← nat; let p ← nat; let q ← nat; let ms ← nat; let bos ← nat
   let stem ← nat; let cpb ← nat; let mid ← bool; let upi ← bool; let inCh ← nat
-  let fixMid ← bool; let fixWrap ← bool; let stemKernel ← nat
+  let fixMid ← bool; let fixWrap ← bool; let stemKernel ← nat; let fixHead ← bool
   let heads ← listOf pHead
   let calls ← listOf (do let h ← nat; let w ← nat; pure (h, w))
   pure ({ fam := fam, variant := variant, filters := filters, rate := ⟨p, q⟩, maxStride := ms, bos := bos,
           stem := stem, cpb := cpb, middle := mid, upInterp := upi, inCh := inCh, heads := heads,
-          fixMid := fixMid, fixWrap := fixWrap, stemKernel := stemKernel }, calls)
+          fixMid := fixMid, fixWrap := fixWrap, stemKernel := stemKernel }, calls, fixHead)
 
 def handle (line : String) : String :=
   match tokens line with
   | "model" :: rest =>
     match runP pCfg rest with
     | none => "bad-op"
-    | some (c, calls) =>
-      match construct c with
+    | some (c, calls, fixHead) =>
+      match (if fixHead then constructFixed c else construct c) with
       | .err e => "construct-raise " ++ errStr e
       | .ok k =>
         let head := "built L " ++ lstStr (labels k.built.dec) ++ " O " ++ lstStr (k.built.dec.map (·.out))
           ++ " I " ++ lstStr k.headIn
+          -- every block's declared channels: encoder convs (UNet), decoder first refine conv / ConvTranspose
+          ++ " E " ++ lstStr (if c.fam == Family.unet then (encConvs k.built.enc).flatMap (fun (a, b) => [a, b]) else [])
+          ++ " C " ++ lstStr (k.built.dec.flatMap fun d => [d.convIn, if c.upInterp then 0 else d.tIn])
         match callSeq c k calls true with
         | none => head
         | some r => head ++ " | " ++ fwdStr r
   | "sameconv" :: rest =>
     match runP (do let n ← nat; let k ← nat; pure (n, k)) rest with
     | some (n, k) => s!"{sameConvOut n k} {explicitHalfPadOut n k}"
+    | none => "bad-op"
+  | "gfilt" :: rest =>
+    match runP (do let w ← tok; let f ← nat; let p ← nat; let q ← nat; let b ← int; let st ← int; let d ← int
+                   pure (w, f, p, q, b, st, d)) rest with
+    | some (w, f, p, q, b, st, d) =>
+      let r : Rate := ⟨p, q⟩
+      if w = "stem" then toString (Gen.TranslatedArch.enc_stem_block_filters f r b st)
+      else if w = "down" then toString (Gen.TranslatedArch.enc_down_block_filters f r b st)
+      else if w = "dec" then toString (Gen.TranslatedArch.dec_block_filters_in f r b st d)
+      else "bad-op"
     | none => "bad-op"
   | "pad" :: rest =>
     match runP (do let i ← int; let k ← int; let s ← int; let d ← int; pure (i, k, s, d)) rest with
